@@ -97,7 +97,8 @@ def run_property(prop, tier, repo, evidence_path=None, quiet=False, write=True):
             getattr(mod, "EXPLANATION", ""), evidence_path)
     if code == 0:
         say("OK property=%s held on everything analysed (%.2fs)" % (prop, time.time() - t0))
-    return code, findings, ctx, out
+    ctx.all_findings = findings
+    return code, new, ctx, out
 
 
 def main(argv=None):
@@ -114,7 +115,7 @@ def main(argv=None):
     if a.explain:
         import json
         want = json.load(open(a.explain))
-        hit = [f for f in findings if f.key == want.get("key")]
+        hit = [f for f in getattr(ctx, 'all_findings', findings) if f.key == want.get("key")]
         print("replay: finding %s is %s on the current tree" % (want.get("key"), "PRESENT" if hit else "absent"))
         for f in hit:
             print("  ", f)
